@@ -16,7 +16,7 @@ CLAIMS = {
         "Every ONNX node emission site of converter and plugins (direct builder calls, getattr/ir.Node/add_node forms with the operator name "
         "constant-propagated through helpers) is enumerated; for each, the set of target opsets that can reach the site is computed from enclosing "
         "tests, abort-guards, flag variables and predicate helpers, and the operator, its attribute names and its input/output arity must exist in the "
-        "onnx.defs schema at every such opset in 21..newest; a lowering that gates an operator's dtype handling on the opset at which ONNX extended the operator's input types must cover every type added at that version. This decides 'nothing newer than the declared opset is emitted' for every plugin, "
+        "onnx.defs schema at every such opset in 21..newest; a lowering that gates an operator's dtype handling on the opset at which ONNX extended the operator's input types must cover every type added at that version; opset-gated optimizer rewrites must be semantics-preserving (C02 instances for passes that test the graph opset). This decides 'nothing newer than the declared opset is emitted' for every plugin, "
         "which the tests (one opset per plugin) cannot.",
         "Decides operator/attribute/arity availability only; numeric agreement across opsets, ORT kernel availability and checker acceptance are not decided. "
         "Trusted: CPython ast, onnx.defs of the installed onnx, the naming assumption that `opset`/`.opset` denote the target opset. Dynamic operator names that do not "
@@ -39,9 +39,9 @@ CLAIMS = {
         "Every @contextmanager and save/restore function of the package that mutates host state (setattr on patch targets, jax.config, the refcounted patch table, the re-entrancy ContextVar) "
         "must mutate inside the try whose finally restores (or in the single statement right before it), yield inside it and undo loops in reverse; every write to a jax/flax/equinox/numpy/... "
         "module or class attribute must be paired in the same function or run only while `import jax2onnx` executes (computed from the top-level import closure); package context managers "
-        "may only be entered through with/ExitStack; in every save/restore pair the saved value is read before the first write and is what the restore writes. This covers every unwinding point of every patch stack, which no test exercises.",
+        "may only be entered through with/ExitStack; in every save/restore pair the saved value is read before the first write and is what the restore writes, and generic patchers restore inherited attributes by deleting the override (ownership probe + delattr). This covers every unwinding point of every patch stack, which no test exercises.",
         "Not decided: pollution of jax.jit trace caches, mutation of user modules by library code, behavioural probes. Assumes objects named self/cls/ctx/owner/*builder are converter-owned. "
-        "Five genuine unscoped writes (jnp.cumsum, *_p attributes) are recorded in known_findings.json; the apply_monkey_patches leak was repaired (fix commit de6b809).",
+        "Five genuine unscoped writes (jnp.cumsum, *_p attributes) are recorded in known_findings.json; the apply_monkey_patches leak (fix de6b809) and the inherited-attribute restore (fix 908e58f) were repaired.",
         "DESIGN.md §3 C13",
     ),
     "C19": (
@@ -59,10 +59,10 @@ CLAIMS = {
         "For every pass in _OPTIMIZER_PASSES the analysis derives which node outputs change meaning (input re-routing of a retained node, upstream bypass in a pair fold) or disappear (removal without a "
         "dominating replace_all_uses_with) and demands a graph-output / nested-graph observation test on exactly those values that is negative on every path to the rewrite; first-input-only chain walks "
         "may only accept single-data-input ops or ops whose side operands are tested scalar-constant; the reshape-pair guard must keep symbolic dims distinguishable; fresh values must be defined; "
-        "function-body passes must not touch initializers/inputs; each commit point must be dominated by its semantic precondition with the right operands; observation tests must cover BOTH observation kinds (graph output and capture by a nested Loop/If body), the observation helpers must reach both base tests (predicate completeness), and _is_inverse_perm is evaluated against its definition on all permutation pairs up to rank 4. This quantifies over every rewrite site "
+        "function-body passes must not touch initializers/inputs; each commit point must be dominated by its semantic precondition with the right operands; observation tests must cover BOTH observation kinds (graph output and capture by a nested Loop/If body), the observation helpers must reach both base tests (predicate completeness), and _is_inverse_perm is evaluated against its definition on all permutation pairs up to rank 4; the value-identity predicate behind the Swish rewrite is evaluated on abstract values (two outputs of one node are different values); the operator tables that make nodes transparent for Transpose/Reshape folding may contain point-wise operators only (schema attribute oracle + frozen reference); the cast-elimination decision procedure is re-decided from C17. This quantifies over every rewrite site "
         "and every choice of observed values, which the 47 fold-happens tests do not.",
         "Not decided: numerical equivalence of a rewrite whose guards are all present (permutation arithmetic, axis remapping), CSE and upstream onnx_ir passes. Roles are recognised through the module's own "
-        "accessors; an observation test the analysis cannot attribute makes the instance UNRESOLVED. Six genuine defect groups found by these rules were repaired (fix commits f81538a, 66aee58, fefc5f3, 4efb73f, 1da6963, 52c1b25).",
+        "accessors; an observation test the analysis cannot attribute makes the instance UNRESOLVED. Six genuine defect groups found by these rules were repaired (fix commits f81538a, 66aee58, fefc5f3, 4efb73f, 1da6963, 52c1b25). Frozen table: POINTWISE_OPS (operators outside it without an axis-like attribute are UNRESOLVED).",
         "DESIGN.md §3 C02 and Appendix A",
     ),
     "C14": (
@@ -112,7 +112,7 @@ CLAIMS = {
     "C05": (
         "writer/reader agreement between extracted name patterns and reader predicates (finite-domain evaluation of the keep predicate, regex matching), who-may-remove check on graph inputs, guard dominance on the CFG",
         "The f-string patterns the converter uses for positional graph inputs are extracted and instantiated; every reader that decides keeping / mapping positional inputs must accept them; graph inputs may be "
-        "removed only by the prune pass, which must be top-graph-only, order-preserving and consult the always-keep rule first; every name validation must raise before rename_values / before the converter runs, and the name-collision check must look into all graph values (inputs, outputs, initializers, node outputs).",
+        "removed only by the prune pass, which must be top-graph-only, order-preserving and consult the always-keep rule first; every name validation must raise before rename_values / before the converter runs, and the name-collision check must look into all graph values (inputs, outputs, initializers, node outputs); graph inputs / outputs take their declared element type and shape from the traced variable's aval; the optimizer's annotation-refresh rules (C08 R-C08c/d) are re-decided because a refreshed value can be a graph output.",
         "Not decided: declared dtypes and shapes vs jax.eval_shape, output ordering of pytrees. The in_<i>_nchw defect was repaired (fix 64e066d).",
         "DESIGN.md §3 C05",
     ),
@@ -120,14 +120,14 @@ CLAIMS = {
         "constant folding of the permutation tables against the NCHW/NHWC reference, def-use from constant to perm= and to declared shapes, dominance of rank / index validation",
         "The two layout permutations must be the reference values and inverse to each other; each bridge must use the right one for its Transpose and for the declared NCHW shape; symbolic-dim origins of an NCHW input "
         "must be recorded on the external value with the permuted shape; _require_4d must reject every non-4D shape and dominate each boundary Transpose; index validation must reject non-integers, out-of-range and "
-        "duplicates, and the validated tuples must be what the bindings receive; non-selected values take the plain path.",
+        "duplicates, and the validated tuples must be what the bindings receive; non-selected values take the plain path; the optimizer folds that remove boundary Transposes are re-decided from C02 (observation guards, inverse-permutation precondition and semantics, point-wise operator tables).",
         "Not decided: numerical equality with the plain export. The interaction with the optimizer's transpose folding is covered by C02 R-C02a, the kept unused NCHW input by C05 R-C05a.",
         "DESIGN.md §3 C12",
     ),
     "C07": (
         "def-use / must-pass analysis of the function dedup-key construction (loops over inputs and parameters, payload value-dependence, key assembly, instance-state fingerprint)",
         "In FunctionPlugin._lower_and_call the input-signature loop must add, on every path, an entry depending on the unreduced aval shape and the dtype; the parameter loop must add a capture on every path; "
-        "each static capture payload must depend on the parameter's value (not only its type); FunctionKey must be assembled from name, input signature and capture signature; the default mode must key by callee "
+        "each static capture payload must depend on the parameter's value (not only its type); the shape entering the key must not pass a per-dimension map with a constant branch; the capture list must keep its order relative to the declared inputs; FunctionKey must be assembled from name, input signature and capture signature; the default mode must key by callee "
         "identity, the unique mode by captures plus a per-leaf/attribute value fingerprint of the instance; the per-name instance counter must be keyed by the identifier the emitted function name is built from. A key that ignores a distinguishing field still yields the function counts the pinned tests assert.",
         "Not decided: equality with the undecorated export, hash collisions, call-node arity. Body-signature safety is C02 R-C02e, re-entrancy flag pairing is C13 R-C13d. The ragged-static-argument defect was repaired (fix f85648c).",
         "DESIGN.md §3 C07",
@@ -136,7 +136,7 @@ CLAIMS = {
         "key-domain classification of memo stores in LowerDimExpr, branch-table check of _convert_op against the reference operator table, pairing of graph-input creation with origin recording on the CFG, single-scope def-use check",
         "Every memoising producer of LowerDimExpr must key in its own domain (constant tag / separator), so differently typed pairs cannot collide; each dimension operation must lower to the reference ONNX operator with "
         "operands in order and unknown operations must raise; a value that becomes a graph input for a traced variable must get its symbolic-dim origins recorded on that same value with per-axis pairing; "
-        "all symbolic_shape calls must share one scope created once.",
+        "all symbolic_shape calls must share one scope created once; symbol identity in the optimizer's shape guard and in the function dedup key is re-decided from C02 / C07.",
         "Not decided: broadcasting at size 1, run-time integer results, per-plugin shape arithmetic. The optimizer side (two symbols never equal) is C02 R-C02c. The memo-key collision was repaired (fix c1479e1).",
         "DESIGN.md §3 C04",
     ),
@@ -153,15 +153,15 @@ CLAIMS = {
         "def-use across the cond branch extraction and If emission, dominance of rejection guards, data-provenance of Loop entry inputs",
         "JAX stores cond branches as (false, true): element 1 must reach then_branch and element 0 else_branch of the emitted If; reverse scans, inconsistent arity / scanned extents, missing jaxprs and N-way switches must raise "
         "before anything is emitted (the reverse rejection must be a test of `reverse` alone, or the reached helper must read it); bodies go through the checked dispatcher; while_loop's initial Loop condition must be the cond jaxpr evaluated on the initial state (the structural necessary condition for zero-iteration "
-        "loops, a path no pinned test executes); scan / fori trip counts must derive from the length / trip_count parameter or the scanned extent.",
+        "loops, a path no pinned test executes); scan / fori trip counts must derive from the length / trip_count parameter or the scanned extent - for scan on every definition that reaches the Loop (CFG reaching definitions).",
         "Not decided: actual trip counts, carried-value wiring, stacked outputs, zero-trip results - they need execution.",
         "DESIGN.md §3 C06",
     ),
     "C08": (
         "guard / provenance analysis of every annotation write in export post-processing + pairing of payload and type writes on the CFG + iteration-order classification (element provenance) of annotation refresh loops",
         "Post-processing may assign a `.shape` only to non-interface values (never reached from the true edge of the io-name test) and only with the result of _unknown_shape_like, which must turn every dimension into None or "
-        "keep it (via a _normalize_dim that returns the same dimension); replacing a constant's payload must be followed by the matching `.type` assignment on every path; every loop that re-derives node annotations from current inputs must visit producers before consumers (graph order, a forward-built list or a reversed backward-built list - never a set or a backward list).",
-        "Not decided: the truth of annotations stamped by ~600 plugins and of the optimizer's metadata refresh (later propagate passes re-derive most shapes, so a missing in-step refresh is not statically a wrong final annotation). The set-order refresh defect found by R-C08c was repaired (fix 16c99d0).",
+        "keep it (via a _normalize_dim that returns the same dimension); replacing a constant's payload must be followed by the matching `.type` assignment on every path; every loop that re-derives node annotations from current inputs must visit producers before consumers (graph order, a forward-built list or a reversed backward-built list - never a set or a backward list); element types are copied input->output only for operators whose ONNX schema gives output 0 the type of input 0; shape / dimension comparison keys must keep different symbols and extents distinguishable (finite-domain evaluation); after copying one operand's shape onto a broadcasting node every exit re-assigns the shape or has a single shaped operand; value allocation narrows only floats wider than the default float.",
+        "Not decided: the truth of annotations stamped by ~600 plugins and of the optimizer's metadata refresh (later propagate passes re-derive most shapes, so a missing in-step refresh is not statically a wrong final annotation). Three defects found by R-C08c/f/g were repaired (fix 16c99d0, 33e03e2, 916c8c1).",
         "DESIGN.md §3 C08",
     ),
     "C16": (
